@@ -109,6 +109,9 @@ type Scanner struct {
 	allowAnnotation bool
 
 	hasTrailingCharacters bool
+
+	// inComment tells that the scanner is inside a user comment (# or ###).
+	inComment bool
 }
 
 type context struct {
@@ -170,6 +173,11 @@ func (s *Scanner) Length() uint {
 	for {
 		lex, ok := s.Next()
 		if !ok {
+			if s.inComment {
+				// The text ends inside a user comment: the comment belongs to the
+				// schema exactly as if a line break followed it.
+				length = uint(s.dataSize)
+			}
 			break
 		}
 
@@ -1253,6 +1261,7 @@ func (s *Scanner) switchToComment() {
 	}
 	s.returnToStep.Push(s.step)
 	s.step = stateAnyCommentStart
+	s.inComment = true
 }
 
 func stateAnyCommentStart(s *Scanner, c byte) state {
@@ -1275,6 +1284,7 @@ func stateInlineComment(s *Scanner, c byte) state {
 		s.step = s.returnToStep.Pop()
 		s.found(lexeme.NewLine)
 		s.index--
+		s.inComment = false
 	}
 	return scanContinue
 }
@@ -1285,6 +1295,7 @@ func stateMultiLineComment(s *Scanner, c byte) state {
 			s.index++ // skip second #
 			s.index++ // skip third #
 			s.step = s.returnToStep.Pop()
+			s.inComment = false
 		}
 	}
 	return scanContinue
